@@ -5,6 +5,7 @@ import re
 
 from core import fseq, fseqs, fbool, pseq, guarded
 import used
+import past
 
 PROP = "C14"
 RULE = ("exhaustive: every word of the generator's language up to length N (decode, quadrant of every index, "
@@ -12,7 +13,10 @@ RULE = ("exhaustive: every word of the generator's language up to length N (deco
         "numeral+directions word and every direction word up to length 7 (translations and round trips), the "
         "containment iff (pw_pcont / pw_pcontnt: one line = one word w against ALL permutations of one length k) "
         "for all strict w <= S and all w <= A, k <= 4; all ordered language pairs (|w|<=3,|u|<=2) for the raw "
-        "occurrence lists; random: language words up to length 14, planted sub-words; malformed: foreign letters, "
+        "occurrence lists; random: language words up to length 14, planted sub-words; large: words of length 9-12, 21-40, "
+        "64-70, ~200, ~401 (~1000 for the linear helpers) with sub-words planted at the ends; a third of the words and "
+        "table keys are equal objects obtained by another route, returned containers are emptied between the two "
+        "evaluations of a line; malformed: foreign letters, "
         "direction first, same-axis repeats, out-of-range indices. non-trivial = the word has >= 2 letters (decode, "
         "quadrant, factor, translations), k >= 2 and |w| >= 2 (containment), n >= 2 (tables); distinct = distinct op lines")
 ASSUMPTIONS = [
@@ -40,7 +44,26 @@ def worker_init():
 
 
 def W(s):
-    return "" if s == "_" else s
+    """the word of a token; for a deterministic third of the tokens an EQUAL string obtained by another route (a
+    slice of a longer string, a join of its letters, a replace that changes nothing) instead of the token itself"""
+    if s == "_":
+        return ""
+    k = used.digest("W", [s]) % 9
+    if k == 0:
+        return ("1" + s + "U")[1:-1]
+    if k == 1:
+        return "".join(list(s))
+    if k == 2:
+        return (s + "").replace("x", "y")
+    return s
+
+
+def _mkp(seq, salt=0):
+    """a Perm key with a past (past.mkperm) for a deterministic part of the look-ups"""
+    seq = tuple(seq)
+    if used.is_perm(seq) and used.digest("K", [fseq(seq)]) % 3 == 0:
+        return past.mkperm(seq, salt)
+    return Perm(seq)
 
 
 def fw(s):
@@ -78,7 +101,7 @@ def _pcont(w, k, filt):
     tbl = PW.perm_to_pinword_mapping(k)
     res = []
     for sigma in itertools.permutations(range(k)):
-        us = tbl.get(Perm(sigma), ())
+        us = tbl.get(_mkp(sigma), ())
         if filt:
             r = any(any(_non_touching(w, PW.factor_pinword(u), occ) for occ in PW.pinword_occurrences(w, u))
                     for u in us)
@@ -131,6 +154,8 @@ def _neighbours(op, a):
     if op in ("pw_pcont", "pw_pcontnt", "pw_tblhist"):
         return
     w = W(a[0])
+    if len(w) > 100:
+        return
     f = {"pw_w2p": PW.pinword_to_perm, "pw_strict": PW.is_strict_pinword, "pw_factor": PW.factor_pinword,
          "pw_sp2m": PW.sp_to_m, "pw_m2sp": PW.m_to_sp}.get(op)
     if f is not None:
@@ -161,8 +186,25 @@ def impl(op, a):
     except Exception:  # pylint: disable=broad-except
         pass
     r1 = _impl(op, a)
+    try:
+        _spoil(op, a)
+    except Exception:  # pylint: disable=broad-except
+        pass
     r2 = _impl(op, a)
     return r1 if r1 == r2 else used.unstable(r1, r2)
+
+
+def _spoil(op, a):
+    """result aliasing: the containers the calls return are emptied by the caller (the memoised tables are left
+    alone: they are documented to be shared)"""
+    if op in ("pw_factor", "pw_occ", "pw_cont", "pw_contnt"):
+        used.spoil(PW.factor_pinword(W(a[0])))
+    if op in ("pw_occ", "pw_cont", "pw_contnt") and len(W(a[0])) <= 40:
+        used.spoil(list(itertools.islice(PW.pinword_occurrences(W(a[0]), W(a[1])), 3)))
+    if op == "pw_occsp" and len(W(a[0])) <= 40:
+        used.spoil(list(itertools.islice(PW.pinword_occurrences_sp(W(a[0]), W(a[1]), int(a[2])), 3)))
+    if op in ("pw_sp2m", "pw_rtsp"):
+        used.spoil(list(PW.sp_to_m(W(a[0]))))
 
 
 def _impl(op, a):
@@ -233,7 +275,7 @@ def _impl(op, a):
                 elif kind in "LG":
                     n, p = rest.split(":")
                     fn = PW.perm_to_pinword_mapping if kind == "L" else PW.perm_to_strict_pinword_mapping
-                    outs.append(guarded(lambda: ",".join(sorted(fw(x) for x in fn(int(n))[Perm(pseq(p))])) or "-"))
+                    outs.append(guarded(lambda: ",".join(sorted(fw(x) for x in fn(int(n))[_mkp(pseq(p), 1)])) or "-"))
                 else:
                     raise ValueError("bad table op " + o)
         finally:
@@ -650,6 +692,72 @@ def run(ctx):
             if f:
                 lines.append("pw_occsp %s %s %d" % (w, rng.choice(f), rng.randrange(0, len(w))))
     ctx.compare("random-words", lines)
+    # ---- sizes the streams above never reach: long words (9-12, 21-40, 64-70, ~200, ~401; the linear-time helpers
+    #      also ~1000).  Sub-words planted at the very beginning / the very end, several long factors, a last factor that
+    #      ends with the last letter, words that agree on their first 8 / 32 letters.  (pinword_occurrences lists ALL
+    #      occurrences - polynomially many - and is kept to the first two scales; decoding is quadratic with exact
+    #      fractions and stops at ~401.)
+    def end_sub(w):
+        """a sub-word built from the first letters and the last letters of w (numeral-led pieces)"""
+        a_, b_ = rng.randrange(1, 4), rng.randrange(1, 4)
+        head, tail = w[:a_], w[-b_:]
+        q1 = geo_quadrant(w, 0) or "1"
+        q2 = geo_quadrant(w, len(w) - b_) or "1"
+        r = rng.random()
+        if r < 0.4:
+            return q2 + tail[1:]
+        if r < 0.7:
+            return q1 + head[1:] + q2 + tail[1:]
+        return q1 + head[1:]
+    lines = []
+    f = 1 if quick else 8
+    for lo, hi, cnt in ((9, 12, 400 * f), (21, 40, 260 * f), (64, 70, 120 * f), (190, 210, 40 * f), (395, 405, 8 * f), (995, 1005, 6 * f)):
+        for _ in range(cnt):
+            n = rng.randrange(lo, hi + 1)
+            strict = rng.random() < 0.4
+            w = rand_word(rng, n, strict=strict)
+            r = rng.random()
+            if hi <= 405 and r < 0.3:
+                lines.append("pw_w2p " + w)
+                if hi <= 210:
+                    lines.append("pw_quad %s %d" % (w, rng.choice([0, n - 1, n - 2, rng.randrange(n)])))
+                continue
+            if r < 0.45:
+                lines.append("pw_factor " + w)
+                lines.append("pw_strict " + w)
+                if strict:
+                    lines.append("pw_sp2m " + w)
+                    lines.append("pw_rtsp " + w)
+                    m = "".join(rng.choice(("UD", "LR")[(i + (w[1:2] in "LR")) % 2]) for i in range(2)) + w[2:]
+                    lines.append("pw_m2sp " + m)
+                    lines.append("pw_rtm " + m)
+                continue
+            if hi > 405:
+                lines.append("pw_factor " + w)
+                continue
+            u = end_sub(w) if rng.random() < 0.5 else planted_sub(rng, w)
+            if rng.random() < 0.15:
+                u = u[:-1] + rng.choice(DIRS + QUADS) if len(u) > 1 else u          # narrowly missing
+            if not in_language(u):
+                u = end_sub(w)
+            if hi <= 40 and len(PWfactor(u)) <= 2:
+                lines.append("pw_occ %s %s" % (w, u))
+            if hi <= 210:
+                lines.append("%s %s %s" % (rng.choice(["pw_cont", "pw_contnt"]), w, u))
+                fs = PWfactor(u)
+                if fs:
+                    lines.append("pw_occsp %s %s %d" % (w, fs[-1], rng.choice([0, max(0, n - len(fs[-1]) - 1), rng.randrange(n)])))
+                    lines.append("pw_contsp %s %s" % (w, fs[-1]))
+            # two words that agree on a long prefix and differ only beyond it
+            if hi <= 70 and rng.random() < 0.3:
+                k = rng.choice([8, 10, 16, 32])
+                if n > k + 1:
+                    w2 = w[:k] + rand_word(rng, n - k + 1, strict=strict)[1:]
+                    if in_language(w2):
+                        lines.append("pw_w2p " + w2)
+                        lines.append("pw_w2p " + w)
+    rng.shuffle(lines)
+    ctx.compare("large-words", lines)
     R2 = 150 if quick else 2500
     lines = []
     for _ in range(R2):
